@@ -275,7 +275,15 @@ def check_line(line):
         except ValueError:
             pass
         except _TO:
-            out.append((tag + '-loops', 'timeout', '%s(%r) did not return within 10 s' % (tag, line)))
+            # a second, patient attempt before a loop is claimed
+            signal.alarm(common.patience(60))
+            try:
+                fn(line)
+                signal.alarm(0)
+            except _TO:
+                out.append((tag + '-loops', 'timeout', '%s(%r) did not return within %d s' % (tag, line, common.patience(60))))
+            except Exception:
+                signal.alarm(0)
         except Exception as ex:
             out.append((tag + '-crash', exc_class(ex) + '|' + line_shape(line), '%s(%r) raised %s: %s' % (tag, line, type(ex).__name__, str(ex)[:80])))
         finally:
